@@ -496,6 +496,10 @@ class Ctx:
         on_fail(failed: dict name->why) which should search for a concrete failing input and
         record violations with found_input=True; if it records none, a
         no-failing-input-found violation naming the broken theorems is recorded."""
+        # translator half of the tie: regenerate the shared constants file from the current source
+        # (tools/consts.py); the `consts_tie*` theorems are then re-checked against it
+        import consts
+        consts.regen(self)
         ok, out = self.lean_build(exes=exes, modules=modules)
         if ok:
             ok = self.lean_audit()
